@@ -524,6 +524,7 @@ class SegmentWriter(IndexWriter):
         info = ix._read_toc()
         self.generation = info.generation + 1
         self.schema = info.schema
+        self._schema_undo = []
         self.segments = info.segments
         self.docnum = self.docbase = docbase
         self._setup_doc_offsets()
@@ -602,12 +603,17 @@ class SegmentWriter(IndexWriter):
         if self._added:
             raise Exception("Can't modify schema after adding data to writer")
         super(SegmentWriter, self).add_field(fieldname, fieldspec, **kwargs)
+        # The schema object can be shared with the index object, so remember
+        # how to take the change back if this writer is cancelled
+        self._schema_undo.append(("remove", fieldname, None))
 
     def remove_field(self, fieldname):
         self._check_state()
         if self._added:
             raise Exception("Can't modify schema after adding data to writer")
+        fieldobj = self.schema[fieldname]
         super(SegmentWriter, self).remove_field(fieldname)
+        self._schema_undo.append(("add", fieldname, fieldobj))
 
     def has_deletions(self):
         """
@@ -968,6 +974,14 @@ class SegmentWriter(IndexWriter):
 
     def cancel(self):
         self._check_state()
+        # Take back schema changes made through this writer
+        while self._schema_undo:
+            action, fieldname, fieldobj = self._schema_undo.pop()
+            if action == "remove":
+                if fieldname in self.schema.names():
+                    self.schema.remove(fieldname)
+            else:
+                self.schema.add(fieldname, fieldobj)
         self._close_segment()
         self._finish()
 
